@@ -41,6 +41,24 @@ class Menu:
         self.targets = [(S(h), S(u), m) for h, u, m in rec[2]]
         self.srv_users = [S(u) for u in rec[3]]
         self.kinds = [(k, n, list(crs)) for k, n, crs in rec[4]]
+        self.parts = [(kw, ''.join(v)) for kw, v in rec[5]] \
+            if len(rec) > 5 else []
+
+    def spelt(self, i, sp, world):
+        """Directive i written in spelling sp (1 = canonical)."""
+        kw, val = self.parts[i - 1]
+        if not kw or sp == 1:
+            return self.line(i, world)
+        val = val.replace('@LU@', LOCAL_USER)
+        if sp == 10:
+            val = ' '.join('"' + w + '"' for w in val.split(' '))
+        seps = {2: '=', 3: ' = ', 4: '= ', 5: ' =', 6: '\t', 7: '   ',
+                8: ' ', 9: ' ', 10: ' '}
+        if sp == 8:
+            kw = kw.lower()
+        elif sp == 9:
+            kw = kw.upper()
+        return kw + seps[sp] + val
 
     def line(self, i, world):
         t = self.text[i - 1]
@@ -87,13 +105,39 @@ class World:
         self._content = {}
         self._glob_reversed = None
 
-    def write(self, menu, main, a, b, x=''):
-        """x = 'list' / 'chain': b is a second configuration file."""
-        key = (tuple(main), tuple(a), tuple(b), x)
+    def write(self, menu, main, a, b, x='', ms=(), variant=0):
+        """x = 'list' / 'chain': b is a second configuration file.
+        ms: spelling of each line of the main file; with it the file-level
+        lexical variant (leading blanks, trailing blanks, CR LF, comment and
+        empty lines in between, last line without newline) is drawn from
+        `variant`."""
+        key = (tuple(main), tuple(a), tuple(b), x, tuple(ms), variant)
         if key == self.current:
             return
         self.current = key
         self.x = x
+        if ms:
+            lead = ('', '  ', '\t', ' \t ')[variant % 4]
+            trail = ('', ' ', ' \t')[(variant // 4) % 3]
+            eol = ('\n', '\r\n')[(variant // 12) % 2]
+            between = ((), ('# a comment',), ('',), ('  # indented', ''))[
+                (variant // 24) % 4]
+            last_nl = (variant // 96) % 2 == 0
+            out = []
+            for n, (i, sp) in enumerate(zip(main, ms)):
+                if menu.kinds[i - 1][0] in ('host', 'match'):
+                    out.extend(between)
+                out.append(lead + menu.spelt(i, sp, self) + trail)
+            text = eol.join(out) + (eol if last_nl else '')
+            self._put(self.main, text)
+            ta, tb = '', ''
+            if a:
+                ta = '\n'.join(menu.line(i, self) for i in a) + '\n'
+            self._put(self.inc_a, ta)
+            self._put(os.path.join(self.globdir, 'a.conf'), ta)
+            self._put(os.path.join(self.globdir, 'b.conf'), tb)
+            self._put(self.second, '')
+            return
 
         def body(idx):
             out = []
